@@ -5,7 +5,8 @@ from oracle_util import *  # noqa
 from tokutil import *  # noqa
 
 ID = "C01"
-LEAN_MODULE = ["SCoda.Props.C01", "SCoda.Props.C01Glue", "SCoda.Props.C02"]
+LEAN_MODULE = ["SCoda.Props.C01", "SCoda.Props.C01b", "SCoda.Props.C01Glue", "SCoda.Props.C02"]
+LEVEL = "proof"
 CLAUSES = [
     ("every token tokenise emits is in the vocabulary, and decode(encode(tokens)) = tokens",
      ["SCoda.C02.tokenise_closed", "SCoda.C02.decode_encode_list"]),
@@ -17,8 +18,12 @@ CLAUSES = [
      ["SCoda.C01.roundtrip", "SCoda.C01.capacity_scaled"]),
     ("the statement without the positive-bar-capacity hypothesis is false (kernel-checked counter-example)", ["SCoda.C01.sim_statement_false"]),
     ("glue: the merge/pairing code hands the core time-ordered events on track channels (EvsOk)", ["SCoda.C01.extract_evsOk"]),
-    ("tokenisation of every valid piece *succeeds* (the greedy rest decomposition never gets stuck under the grid condition; range checks pass)", None),
-    ("total duration rounded up to the end of the last bar (false for pieces with a tail: known finding D15; no partial theorem yet)", None),
+    ("tokenisation of every valid piece *succeeds*: under the grid condition the greedy rest decomposition never gets stuck and all range checks pass "
+     "(the statement that forgets non-empty pairings is refuted; the glue shows pairings are non-empty)",
+     ["SCoda.C01.tokenise_succeeds_partial", "SCoda.C01.applyRest_ok", "SCoda.C01.tokenise_succeeds_statement_false", "SCoda.Glue.extract_shape"]),
+    ("total duration rounded up to the end of the last bar: after a call the clock stands on a bar line, every bar end is at most the final clock, and "
+     "outside the tail class every emission ends by the final clock, which is the last bar end emitted (partial: known finding D15, refuted in general by a kernel-checked example)",
+     ["SCoda.C01.duration_partial", "SCoda.C01.specLog_on_barline", "SCoda.C01.specLog_barEnds_le", "SCoda.C01.duration_false_with_tail"]),
 ]
 RULE = ("valid multi-track pieces (1-3 tracks, 1-5 bars, <=3 notes per bar and track, signature changes on bar lines, rests "
         "crossing bar lines, simultaneous notes across tracks) x configurations (all 16 flag combinations sampled, velocity "
